@@ -90,6 +90,7 @@ func sortedKeys[V any](m map[string]V) []string {
 }
 
 type c17 struct {
+	gen int
 	c     *wk.Ctx
 	e     gen.Env
 	s     *packet.Session
@@ -114,6 +115,10 @@ func (t *c17) fresh() {
 	}
 	t.h = dns_naming.VerifNew(t.s)
 	t.n = 0
+	// every second handler lives with the library's loggers and the naming handlers' debug switch on: what is logged about a
+	// message is computed from the message too
+	t.gen++
+	setLogLevels(t.gen%2 == 0)
 	t.lastMDNSMAC, t.mdnsSeen = refdec.MAC{}, nil
 }
 
@@ -317,6 +322,37 @@ func (t *c17) dnsCase(r *rand.Rand) {
 			fail("PTR-record", fmt.Sprintf("PTR -> %q ip %v stored as %+v (present=%v)", tg, ip, rr, ok))
 			return
 		}
+	}
+	// the read accessors of the stored entry and of the table agree with the records
+	set := func(as []netip.Addr) string {
+		x := make([]string, len(as))
+		for i, a := range as {
+			x[i] = a.String()
+		}
+		sort.Strings(x)
+		return strings.Join(x, ",")
+	}
+	var a4, a6 []netip.Addr
+	for ip := range truth.a {
+		a4 = append(a4, ip)
+		if !t.h.DNSExist(ip) {
+			fail("DNSExist", fmt.Sprintf("DNSExist(%v) is false for a stored A record", ip))
+			return
+		}
+	}
+	for ip := range truth.aaaa {
+		a6 = append(a6, ip)
+	}
+	var cn []string
+	for _, tg := range truth.cname {
+		cn = append(cn, tg)
+	}
+	gcn := ent.CNameList()
+	sort.Strings(cn)
+	sort.Strings(gcn)
+	if set(ent.IP4List()) != set(a4) || set(ent.IP6List()) != set(a6) || strings.Join(gcn, ",") != strings.Join(cn, ",") {
+		fail("list-accessors", fmt.Sprintf("IP4List/IP6List/CNameList = %v / %v / %v, the message has %v / %v / %v", ent.IP4List(), ent.IP6List(), gcn, a4, a6, cn))
+		return
 	}
 	nl := strings.Count(truth.q, ".") + 1
 	c.Class(fmt.Sprintf("dns builder=%d labels~%d a=%v aaaa=%v cname=%v ptr=%v", builder, nl/4*4, len(truth.a) > 0, len(truth.aaaa) > 0, len(truth.cname) > 0, len(truth.ptr) > 0))
